@@ -3,6 +3,7 @@
 #pragma once
 #include "model.hpp"
 #include <type_traits>
+#include <cerrno>
 using namespace vh;
 using namespace MASA;
 
@@ -21,8 +22,14 @@ static std::string rand_handle() {
   // handles are used verbatim: twins that differ only by a trailing / leading blank, by case or by a dash must stay distinct
   // ... and two long handles that share their first 64 characters
   static const std::string LONG64(64, 'L');
-  static const std::string H[] = {"A", "B", "C", "d e", "E-1", "twin-src", "A ", " A", "a", "E1", LONG64 + "-one", LONG64 + "-two"};
-  return H[R->below(R->below(3) == 0 ? 12 : 6)];
+  // ... the empty string (an ordinary key), and pairs of distinct strings that collide under the usual string hashes (FNV-1a 32: costarring/liquid,
+  // declinate/macallums; multiplier-31: Aa/BB, AaAa/BBBB; djb2: hetairas/mentioner): a registry keyed by a hash must still keep them apart
+  static const std::string H[] = {"A", "B", "C", "d e", "E-1", "twin-src", "A ", " A", "a", "E1", LONG64 + "-one", LONG64 + "-two", "",
+                                  "costarring", "liquid", "declinate", "macallums", "Aa", "BB", "AaAa", "BBBB", "hetairas", "mentioner"};
+  int k = R->below(6);
+  if (k == 0) return H[6 + R->below(7)];
+  if (k == 1) { int pair = R->below(5); return H[13 + 2 * pair + R->below(2)]; }
+  return H[R->below(6)];
 }
 static std::string pick_sol() {
   // weighted towards the stateful solutions the properties name
@@ -179,8 +186,8 @@ template <class S> struct Ops {
   // beyond / below the scalar no_gauss), then both evaluators are compared with the sums over the vectors just set
   void set_vec_triple() {
     auto& in = m.cur();
-    static const int LENS[] = {1, 2, 3, 7, 24, 25, 26, 27, 40, 64};
-    int len = R->coin() ? LENS[R->below(10)] : 1 + R->below(64);
+    static const int LENS[] = {1, 2, 3, 7, 24, 25, 26, 27, 40, 64, 65, 70, 90, 129, 150, 300, 1000};
+    int len = R->coin() ? LENS[R->below(17)] : 1 + R->below(64);
     for (const char* n : {"vec_amp", "vec_mean", "vec_stdev"}) {
       if (!in.vec.count(n)) return;
       std::vector<S> v((size_t)len);
@@ -191,6 +198,10 @@ template <class S> struct Ops {
     }
     compare_selected(m, "C11", "set_vec-leak", "after setting the three radiation vectors");
     eval(ev_index("source_u/S1")); eval(ev_index("exact_u/S1"));
+    // the far-field branch of the integrated intensity (x > 1000) uses the vectors as well
+    static const long double FAR[2][4] = {{1500.25L, 0, 0, 0}, {1000.5L, 0, 0, 0}};
+    eval(ev_index("exact_u/S1"), FAR[R->below(2)]);
+    if (g_focus == "purity" || R->below(4) == 0) twin();   // a fresh instance given the same vectors must reproduce these values bit for bit
   }
   void set_vec() {
     auto& in = m.cur();
@@ -208,8 +219,8 @@ template <class S> struct Ops {
       compare_selected(m, "C11", "unknown-vector-changed-state", "after set_vec/get_vec of unknown name");
       return;
     }
-    static const int LENS[] = {0, 1, 2, 3, 5, 8, 13, 25, 40, 64};
-    int len = R->coin() ? LENS[R->below(10)] : R->below(65);
+    static const int LENS[] = {0, 1, 2, 3, 5, 8, 13, 25, 40, 64, 65, 128, 129, 200, 257, 1000, 1001};
+    int len = R->coin() ? LENS[R->below(17)] : R->below(65);
     if (!kExceptions && in.sol == "sod_1d") return;
     std::vector<S> v((size_t)len);
     for (auto& x : v) x = (S)R->uni(-3.0L, 3.0L);
@@ -221,6 +232,18 @@ template <class S> struct Ops {
     if (same) for (size_t i = 0; i < v.size(); i++) if (!biteq(g[i], v[i])) same = false;
     if (!same) hviol("C11", "vec-roundtrip:" + in.sol + ":" + n, "masa_get_vec after masa_set_vec(len " + std::to_string(len) + ") returned status " + std::to_string(rc) + " length " + std::to_string(g.size()));
     compare_selected(m, "C11", "set_vec-leak", "after masa_set_vec(\"" + n + "\")");
+  }
+  // the parameter-less fixture of the catalogue on its own handle: listing / display functions on an EMPTY parameter set must leave the
+  // library's output stream usable (every later 'MASA ERROR' / 'MASA FATAL ERROR' line goes through it)
+  void fixture_display() {
+    if (m.sel.empty()) return;
+    std::string keep = m.sel;
+    init("fx", "masa_uninit");
+    display();
+    hist("masa_display_vec<" + P + ">() / masa_sanity_check on the parameter-less fixture");
+    CAP.begin(); masa_display_vec<S>(); CAP.end();
+    if (!std::cout.good()) hviol("C16", "stdout-stream-left-in-failed-state", "after masa_display_param / masa_display_vec on a solution without parameters std::cout is in a failed state: later error messages are lost");
+    select(keep);
   }
   void display() {
     auto& in = m.cur();
@@ -241,13 +264,15 @@ template <class S> struct Ops {
   std::string eval_bits(const Ev& e, const long double* a, int idx, std::string* outp = nullptr) {
     S as[4]; for (int i = 0; i < 4; i++) as[i] = (S)a[i];
     std::string b;
+    // errno as an unrelated libm call anywhere in the process may have left it: the value must not depend on it
+    { static const int EN[] = {0, 0, EDOM, ERANGE}; errno = EN[R->below(4)]; }
     Outcome o = guarded([&] { S r = call_ev<S>(e, as, idx, cbK<S>()); b = bits(r); }, false);
     if (o.fatal) b = "FATAL" + std::to_string(o.code);
     if (o.abnormal) b = "ABNORMAL";
     if (outp) *outp = o.out;
     return b;
   }
-  void eval(int force_ei = -1) {
+  void eval(int force_ei = -1, const long double* force_pt = nullptr) {
     auto& in = m.cur();
     const SolSpec* sp = find_sol(in.sol);
     if (!sp) return;
@@ -257,7 +282,7 @@ template <class S> struct Ops {
     if (force_ei >= 0) ei = force_ei;
     else if (!sp->prov.empty() && R->below(5) != 0) { auto it = sp->prov.begin(); std::advance(it, R->below((int)sp->prov.size())); ei = ev_index(*it); }
     else ei = R->below((int)api().size());
-    const long double* a = POOL[R->below(32)];
+    const long double* a = force_pt ? force_pt : POOL[R->below(32)];
     int idx = -999;
     // half of the time: repeat a call already made on these parameters (after arbitrary other calls in between)
     auto& rc = m.recent[m.sel];
@@ -267,7 +292,7 @@ template <class S> struct Ops {
     hist("masa_eval_" + e.id + "<" + P + ">(pool point, idx " + std::to_string(idx) + ") on " + m.sel + ":" + in.sol);
     std::string b = eval_bits(e, a, idx);
     CNT.evals++;
-    std::string key = P + "|" + m.sel + "|" + std::to_string(in.version) + "|" + e.id + "|" + std::to_string((int)(a - POOL[0]) / 4) + "|" + std::to_string(idx);
+    std::string key = P + "|" + m.sel + "|" + std::to_string(in.version) + "|" + e.id + "|" + (force_pt ? "far" + jnum(a[0]) : std::to_string((int)(a - POOL[0]) / 4)) + "|" + std::to_string(idx);
     auto it = seen.find(key);
     if (it == seen.end()) { seen[key] = b; LOG_distinct_keys++; }
     else {
